@@ -225,6 +225,11 @@ def run_exh(ctx, sp, i):
 
 
 def run_rand(ctx, i):
+    with ctx.time_limit(20):
+        _run_rand(ctx, i)
+
+
+def _run_rand(ctx, i):
     r = ctx.rng('rand', i)
     g = grammar_for(rand_body(r, Kw(), 0, [r.randint(2, 5)]))
     # same attribute with different value rules makes the attribute type OBJECT: fine for this property
